@@ -328,6 +328,13 @@ def gen_sampler_case(rng, kind, preset=None):
         integral.append(["sin", ["coord", "s", 0, "integral"]])
         integral.append(["coord", "s", 0, "integral"])
     must = one_per_object(at["data"]) + one_per_object(at["par"]) + one_per_object(at["dflt"])
+    if kind == "integro" and rng.random() < 0.6:
+        # derivative of the integral output with respect to a coordinate that is NOT integrated over
+        nonint = [v for v in vars_ if v["name"] != "s"]
+        if nonint:
+            v = nonint[int(rng.integers(0, len(nonint)))]
+            o = outs[int(rng.integers(0, len(outs)))]
+            must.append(["dint", o["name"], int(rng.integers(0, o["dim"])), v["name"], int(rng.integers(0, v["dim"]))])
     must.append(list(at["coord"][int(rng.integers(0, len(at["coord"])))]))
     if rng.random() < 0.7:
         must.append(list(deriv[int(rng.integers(0, len(deriv)))]))
